@@ -15,12 +15,12 @@ package mem
 //@ requires [cache] cacheWf(s)
 //@ ensures [all] result1 == nil ==> result0 != nil && (forall n string :: (n in result0) <==> known(s, wanW(path), n)) && (forall n string :: n in result0 ==> result0[n] != nil && result0[n] == accountOf(s, wanW(path), n))
 //@ ensures [found] (result1 == nil) <==> (wanOk(path) && ((wanW(path) in s.walletAccounts) || (wanW(path) in s.rwWalletAccounts)))
-//@ loop #1
+//@ loop #1 over range walletAccounts
 //@ invariant [ctx] allWalletAccounts != nil && fresh(allWalletAccounts) && rwExists && rwWalletAccounts == s.rwWalletAccounts[wanW(path)] && (wanW(path) in s.rwWalletAccounts) && (`exists` <==> (wanW(path) in s.walletAccounts)) && (`exists` ==> walletAccounts == s.walletAccounts[wanW(path)]) && (!`exists` ==> walletAccounts == nil)
 //@ invariant [sub] forall n string :: visited()[n] ==> `exists` && n in s.walletAccounts[wanW(path)]
 //@ invariant [copied] forall n string :: (n in allWalletAccounts) <==> visited()[n]
 //@ invariant [values] forall n string :: n in allWalletAccounts ==> allWalletAccounts[n] == s.walletAccounts[wanW(path)][n]
-//@ loop #2
+//@ loop #2 over range rwWalletAccounts
 //@ invariant [ctx] allWalletAccounts != nil && fresh(allWalletAccounts) && rwExists && rwWalletAccounts == s.rwWalletAccounts[wanW(path)] && (wanW(path) in s.rwWalletAccounts) && (`exists` <==> (wanW(path) in s.walletAccounts)) && (`exists` ==> walletAccounts == s.walletAccounts[wanW(path)]) && (!`exists` ==> walletAccounts == nil)
 //@ invariant [sub] forall n string :: visited()[n] ==> n in s.rwWalletAccounts[wanW(path)]
 //@ invariant [copied] forall n string :: (n in allWalletAccounts) <==> ((`exists` && n in s.walletAccounts[wanW(path)]) || visited()[n])
